@@ -11,6 +11,7 @@
 -/
 import SoyVerif.Ops.Common
 import SoyVerif.Model.Msg
+import SoyVerif.Model.MsgRender
 
 namespace SoyVerif.Ops.Msg
 open SoyVerif SoyVerif.Ops SoyVerif.Model.Msg
@@ -116,7 +117,68 @@ def msgPartsField (ps : List MsgPart) : String :=
     | .text b => "T" ++ Bytes.toHexWire b
     | .ph n => "P" ++ Bytes.toHexWire n)
 
+/-! ### C11: rendering translations -/
+
+/-- `hexkey:hexval,…` (or `()`) -/
+def parsePairs (s : String) : Option (List (Bytes × Bytes)) :=
+  if s == "()" then some [] else
+  (s.splitOn ",").mapM fun tok =>
+    match tok.splitOn ":" with
+    | [a, b] => do pure (← Bytes.ofHex a, ← Bytes.ofHex b)
+    | _ => none
+
+/-- `hexkey:int,…` (or `()`) -/
+def parseIntPairs (s : String) : Option (List (Bytes × Int)) :=
+  if s == "()" then some [] else
+  (s.splitOn ",").mapM fun tok =>
+    match tok.splitOn ":" with
+    | [a, b] => do pure (← Bytes.ofHex a, ← b.toInt?)
+    | _ => none
+
+def parseHexList (s : String) : Option (List Bytes) :=
+  if s == "()" then some [] else (s.splitOn ",").mapM Bytes.ofHex
+
+/-- the plural selectors the harness can ask the PO loader for (Plural-Forms headers):
+    0 = one form, 1 = `n != 1`, 2 = Czech/Slovak three forms -/
+def selOf (kind : Nat) (n : Int) : Int :=
+  match kind with
+  | 0 => 0
+  | 1 => if n != 1 then 1 else 0
+  | _ => if n == 1 then 0 else if n ≥ 2 && n ≤ 4 then 1 else 2
+
+def optOut : Option Bytes → String
+  | some b => okBytes b
+  | none => "ERR"
+
+def optHexOrPanic : Option Bytes → String
+  | some b => Bytes.toHexWire b
+  | none => "PANIC"
+
 def ops : List Op := [
+  -- msgrender <soy file> <abstract body> <ρ pairs> <ν pairs> <mode> <varName> <msgstrs> <selector> <data ints (impl only)>
+  ("msgrender", fun f => match f with
+    | [_, body, rho, nu, mode, var, strs, selk, _] =>
+      match parseBody body, parsePairs rho, parseIntPairs nu, Bytes.ofHex var, parseHexList strs, selk.toNat? with
+      | some body, some rho, some nu, some var, some strs, some selk =>
+        let ρ : Bytes → Bytes := fun s => (rho.lookup s).getD []
+        let ν : Bytes → Int := fun s => (nu.lookup s).getD 0
+        let R := rbody Orders.id body
+        let bundle : Option Bundle :=
+          if mode == "nobundle" then none
+          else if mode == "missing" then some ⟨fun _ => none, selOf selk⟩
+          else some ⟨fun _ => some (newMessage var strs), selOf selk⟩
+        optOut (evalMsg ρ ν bundle 0 R)
+      | _, _, _, _, _, _ => "BADREQ"
+    | _ => "BADREQ"),
+  -- pomsgid <soy file> <abstract body>
+  ("pomsgid", fun f => match f with
+    | [_, body] =>
+      match parseBody body with
+      | some body =>
+        let R := rbody Orders.id body
+        "OK " ++ (if validate R then "1" else "0") ++ " " ++ optHexOrPanic (msgid R) ++ " " ++ optHexOrPanic (msgidPlural R)
+      | none => "BADREQ"
+    | _ => "BADREQ"),
   ("fp", with1 fun b => "OK " ++ toString (fingerprint b).toNat),
   ("hash32", fun f => match f with
     | [s, c] => match Bytes.ofHex s, c.toNat? with
